@@ -26,6 +26,7 @@ from ..deg import Deg, DegError, Mismatch, NOHIST, ZERO, solve
 from ..lib import (evaluator, Decider, enum_member, rec_fields, show, walk, strip_casts, is_ext_call,
                    fn_name, method_name, path_str, ext_name, select_arms)
 from ..spec import spec_term, Comparer
+from ..ideal import Point, Unknown as IdealUnknown, Indeterminate
 from ..symb import Symb, equal
 from ..terms import T, sym, const, is_const, cval, NONE, subst
 from ..model import AnalysisError
@@ -142,6 +143,16 @@ def power_parts(t):
   return None
 
 
+def raw_power(t):
+  """t == base ** expo exactly (no clamps read through) -> (base, expo) else None"""
+  t = strip_casts(t)
+  if t.op == 'bin' and t.args[0] == '**':
+    return t.args[1], strip_casts(t.args[2])
+  if is_ext_call(t, 'jax.numpy.power') and len(t.args[1]) == 2:
+    return t.args[1][0], strip_casts(t.args[1][1])
+  return None
+
+
 def _deg_pass(ctx, rule, fi, what, term, mode, leaf, tag=''):
   d = Deg(mode, leaf)
   try:
@@ -154,6 +165,97 @@ def _deg_pass(ctx, rule, fi, what, term, mode, leaf, tag=''):
 # ------------------------------------------------------------------ Distributed Shampoo
 def _unpack_summary(ev, bound, rec):
   return T('tuple', *[sym('slot', n) for n in ['eigvecs', 'eigvals', 'inv_eigvals', 'const', 'tail', 'has_zeros']])
+
+
+def _increasing(t, x):
+  """t is x, or an increasing function of x > 0 built from squares, positive powers, square roots and positive factors"""
+  t = strip_casts(t)
+  if t is x:
+    return True
+  if t.op == 'bin' and t.args[0] == '**' and is_const(t.args[2]) and isinstance(cval(t.args[2]), (int, float)) and cval(t.args[2]) > 0:
+    return _increasing(t.args[1], x)
+  if is_ext_call(t, 'jax.numpy.square', 'jax.numpy.sqrt') and len(t.args[1]) == 1:
+    return _increasing(t.args[1][0], x)
+  if t.op == 'bin' and t.args[0] == '*':
+    a_, b_ = t.args[1], t.args[2]
+    if a_ is b_:
+      return _increasing(a_, x)
+    for u_, v_ in ((a_, b_), (b_, a_)):
+      if is_const(strip_casts(v_)) and isinstance(cval(strip_casts(v_)), (int, float)) and cval(strip_casts(v_)) > 0:
+        return _increasing(u_, x)
+  return False
+
+
+def _fd_guard_obligations(ctx, fi, ev, cmpr, tag, a, ideal, pt, leaf, env, env_raw, uk_raw):
+  l_id, t_id = ideal['deflated_eigs'], ideal['new_tail']
+  ctx.ob('C09.R3', fi.short, f'guards leave l\' unchanged on a healthy direction {tag}',
+         cmpr.same(l_id, spec_term(ev, '(s[:rank] - s[rank]) * (s[:rank] + s[rank])', env_raw)),
+         f'a clamp or mask on the stored eigenvalues is not the identity for a retained direction with positive eigenvalue, unit norm '
+         f'and no padding mass: the field evaluates to `{cmpr.fmt(l_id)[:160]}` there', ctx.loc(fi), sample='masks are 1 at the reference point')
+  ctx.ob('C09.R3', fi.short, f'guards leave t\' unchanged {tag}', cmpr.same(t_id, spec_term(ev, 'tail * decay + s[rank] ** 2', env_raw)),
+         f'a clamp on the escaped mass is not the identity for positive mass: the field evaluates to `{cmpr.fmt(t_id)[:160]}`', ctx.loc(fi),
+         sample='clamp is the identity for t > 0')
+  ctx.ob('C09.R3', fi.short, f'guards leave V\' = u[:, :k] on a healthy direction {tag}', ideal['eigvecs'] is uk_raw or cmpr.same(ideal['eigvecs'], uk_raw),
+         f'masks / normalisation applied to the retained directions are not the identity for a unit-norm direction with positive eigenvalue '
+         f'and no padding mass (orthonormal-or-zero columns): the field evaluates to `{cmpr.fmt(ideal["eigvecs"])[:160]}`', ctx.loc(fi),
+         sample='V\' = u[:, :k] at the reference point')
+  ppi = raw_power(ideal['inverted_eigs'])
+  # the inverse roots use the discounted *previous* mass plus this step's full top eigenvalue: s^2 + b t = l' + t'
+  oki = ppi is not None and cmpr.same(ppi[0], spec_term(ev, 'l + t', {'l': l_id, 't': t_id})) and cmpr.same(ppi[1], spec_term(ev, '-1.0 / p', env))
+  ctx.ob('C09.R3', fi.short, f'guards leave the inverse roots (l\' + t\')^(-1/p) {tag}', oki,
+         f'a clamp or mask on the stored inverse roots is not the identity on a healthy direction: the field evaluates to '
+         f'`{cmpr.fmt(ideal["inverted_eigs"])[:200]}`', ctx.loc(fi), sample='inverse roots unchanged at the reference point')
+  pci = raw_power(ideal['new_const'])
+  ctx.ob('C09.R3', fi.short, f'guards leave the tail constant t\'^(-1/p) {tag}',
+         pci is not None and cmpr.same(pci[0], t_id) and cmpr.same(pci[1], spec_term(ev, '-1.0 / p', env)),
+         f'a clamp on the tail constant is not the identity for positive mass: the field evaluates to `{cmpr.fmt(ideal["new_const"])[:160]}`',
+         ctx.loc(fi), sample='c unchanged at the reference point')
+  for nm in ('inverted_eigs', 'new_const'):
+    n_guard = 0
+    for g, c, x1, x2 in pt.guards(a[nm], is_mask):
+      for zero_arm, pow_arm in ((x1, x2), (x2, x1)):
+        if not is_const(strip_casts(zero_arm), 0, 0.0):
+          continue
+        rp_ = raw_power(pow_arm)
+        if rp_ is None:
+          continue
+        base_ = rp_[0]
+        n_guard += 1
+        v0 = Point(leaf, override={base_: ('num', 0)}).ival(c)
+        picks_zero = v0 is not None and v0[0] in ('bool', 'num') and (bool(v0[1]) == (zero_arm is x1))
+        ctx.ob('C09.R3', fi.short, f'{nm}: zero base maps to a zero root {tag}', picks_zero,
+               f'the guard of the inverse power `{show(pow_arm, maxdepth=3)[:80]}` does not select 0 when the base is exactly 0 '
+               f'(0 ** (-1/p) is inf: a dead direction would get an infinite root); guard `{show(c, maxdepth=4)[:100]}`', ctx.loc(fi),
+               sample='where(base <= 0, 0, base ** alpha)')
+    ctx.need('C09.R3', n_guard, 1, f'zero guard of the inverse power in `{nm}`')
+  # "orthonormal-or-ZERO columns, l >= 0": at each degenerate point the direction must be dropped entirely
+  norms = list({x for x in walk(a['eigvecs']) if is_ext_call(x, 'jax.numpy.linalg.norm')})
+  unit = [x for x in norms if pt.ival(x) == ('num', 1)]
+  mass = [x for x in norms if pt.ival(x) == ('num', 0)]
+  if not unit:
+    ctx.defer('C09.R3: no unit-norm test of the retained directions found in _fd_update_root (anchor moved or construct not recognised)')
+  # a column whose norm is off is not orthonormal: it must be dropped; a column with mass on padding rows may be
+  # dropped or kept whole - anything else (a rescaled column) is neither orthonormal nor zero
+  points = [(f'column norm {v}', {x: ('num', v)}, False) for x in unit for v in (0.5, 2.0)]
+  points += [('mass on padding rows', {x: ('num', 1.0)}, True) for x in mass]
+  for what, ov, may_keep in points:
+    q = Point(leaf, override=ov)
+    v_, l_ = q.ival(a['eigvecs']), q.ival(a['deflated_eigs'])
+    z = lambda v: v is not None and v != 'pos' and v != 'orth' and v[0] in ('num', 'bool') and not v[1]
+    okp = (z(v_) and z(l_)) or (may_keep and v_ == 'orth')
+    ctx.ob('C09.R3', fi.short, f'direction dropped at the degenerate point `{what}` {tag}', okp,
+           f'a retained direction with {what} must be zeroed together with its eigenvalue (orthonormal-or-zero columns); there the stored '
+           f'direction evaluates to {v_} and its eigenvalue to {l_} (None: neither a definite zero nor the unchanged column)', ctx.loc(fi),
+           sample=f'V\' = 0 and l\' = 0 when {what}')
+  hz = a.get('has_zeros')
+  if hz is not None:
+    # a flagged preconditioner is not applied at all (C10): on a healthy sketch the flag must be clear
+    flag_pts = [('healthy sketch', {}, False)]
+    for what, ov, want in flag_pts:
+      v_ = Point(leaf, override=ov).ival(hz)
+      ctx.ob('C09.R3', fi.short, f'zero flag at `{what}` {tag}', v_ is not None and v_ != 'pos' and v_[0] in ('bool', 'num') and bool(v_[1]) == want,
+             f'the packed has_zeros flag must be {want} for a {what} (a flagged preconditioner is not applied at all); it evaluates to {v_}',
+             ctx.loc(fi), sample=f'has_zeros == {want} at {what}')
 
 
 def ds_fd(ctx):
@@ -258,6 +360,48 @@ def ds_fd(ctx):
            x.args[1][0].op == 'cmp' and x.args[1][0].args[0] == '>=' and is_const(x.args[1][0].args[1], 0, 0.0)]
       ctx.ob('C09.R3', fi.short, f'{nm} clamped at 0 {tag}', bool(w),
              f'`{nm}` must pass through where(x <= 0, 0, x) so that l, t >= 0 and dead directions get zero roots', ctx.loc(fi), sample=f'where({nm} <= 0, 0, .)')
+    # guards are read through only where they are the identity: at the reference point of a healthy retained direction
+    # (exact arithmetic: singular values positive and distinct, unit column norms, no mass on padding rows, active index)
+    # every clamp / mask / safe division on the value spine of the packed fields must leave the documented formula
+    # unchanged; at the degenerate point (base = 0) the guard of an inverse power must select the zero arm
+    raw = list({x for x in walk(a['deflated_eigs']) if is_ext_call(x, 'jax.numpy.linalg.svd')})
+    ctx.need('C09.R3', len(raw), 1, 'svd feeding the packed eigenvalues')
+    env_raw = dict(env, s=T('sub', raw[0], const(1)), u=T('sub', raw[0], const(0)))
+    s_raw = env_raw['s']
+    top_t, cut_t, uk_raw = spec_term(ev, 's[:rank]', env_raw), spec_term(ev, 's[rank]', env_raw), spec_term(ev, 'u[:, :rank]', env_raw)
+    mask_val = {}
+    for x in masks:
+      ar = [y for y in walk(x) if is_ext_call(y, 'jax.numpy.arange')][0]
+      env_m = {'idx': ar, 'ps': P('padding_start')}
+      if cmpr.same(x, spec_term(ev, 'idx < ps', env_m)):
+        mask_val[x] = ('bool', True)
+      elif cmpr.same(x, spec_term(ev, 'idx >= ps', env_m)):
+        mask_val[x] = ('bool', False)
+    pos_syms = {P('decay'), P('ridge_epsilon'), P('error_tolerance'), sym('slot', 'tail'), sym('slot', 'eigvals'), s_raw}
+
+    def leaf(t):
+      if t is uk_raw:
+        return 'orth'
+      if t in pos_syms or (t.op == 'sub' and t.args[0] is s_raw):
+        return 'pos'
+      if t in mask_val:
+        return mask_val[t]
+      if t.op == 'bin' and t.args[0] == '-' and _increasing(t.args[1], top_t) and subst(t.args[1], {top_t: cut_t}) is t.args[2]:
+        return 'pos'                 # singular values come sorted: f(s[:k]) > f(s[k]) for increasing f and a retained direction
+      return None
+    pt = Point(leaf)
+    try:
+      ideal = {nm: pt.strip(a[nm], is_mask) for nm in ('eigvecs', 'deflated_eigs', 'inverted_eigs', 'new_const', 'new_tail')}
+    except IdealUnknown as e:
+      ctx.defer(f'_fd_update_root: {e.why}: `{show(e.term, maxdepth=4)[:160]}`')
+      ideal = None
+    except Indeterminate as e:
+      ctx.ob('C09.R3', fi.short, f'guards are the identity on healthy values {tag}', False,
+             f'the guard `{show(e.cond, maxdepth=4)[:120]}` compares a positive quantity of arbitrary magnitude with a positive threshold: it is not '
+             f'the identity for every healthy value, so the stored fields do not follow the documented formulas for small values', ctx.loc(fi))
+      ideal = None
+    if ideal is not None:
+      _fd_guard_obligations(ctx, fi, ev, cmpr, tag, a, ideal, pt, leaf, env, env_raw, uk_raw)
     # history factor: sqrt(decay) * sketch * sqrt(eigvals [+ ridge])
     cat = S.args[1][0]
     if not is_ext_call(cat, 'jax.numpy.concatenate'):
